@@ -28,7 +28,7 @@ m = {
     "hooks": {
         "guard": "verif",
         "enable": "go test -tags verif (plus -overlay build/overlay/overlay.json generated from the current /repo tree by sim/tools/instrument for engines B and D)",
-        "baseline_off_cmd": "cd /repo && GOFLAGS=-mod=mod GOPROXY=off GOSUMDB=off go test -vet=off -count=1 -timeout 25m ./...",
+        "baseline_off_cmd": "cd /repo && GOFLAGS=-mod=mod GOPROXY=off go test -vet=off -count=1 -timeout 25m ./...",
         "source_commits": HOOK_COMMITS,
         "add_only": True,
     },
